@@ -18,6 +18,7 @@ KANI_CORE_DESER = ('core/src/deserializer.rs', 'kani/core/deserializer_harness.r
 KANI_CORE_CONT = ('core/src/serializer.rs', 'kani/core/containers_harness.rs')
 KANI_CORE_CONV = ('core/src/convert_value.rs', 'kani/core/convert_harness.rs')
 KANI_CORE_BUS = ('core/src/bus_listener.rs', 'kani/core/bus_listener_harness.rs')
+KANI_CORE_MSG = ('core/src/message.rs', 'kani/core/message_harness.rs')
 KANI_BROKER_ACC = ('broker/src/acceptor.rs', 'kani/broker/acceptor_harness.rs')
 TB_STUB = ['kani::stub of bytes::BytesMut::reserve_inner by a function that asserts false: sound (reachability of the '
            'real function is a proof obligation), used to keep the re-allocation path out of the formula']
@@ -26,7 +27,7 @@ PROPS = {
     'C08': dict(
         level='proof',
         verus_units=['core_messages'],
-        kani=[dict(package='aldrin-core', injections=[KANI_CORE_BUF], jobs=4)],
+        kani=[dict(package='aldrin-core', injections=[KANI_CORE_BUF, KANI_CORE_MSG], jobs=4)],
         trusted_base=TB_VERUS + TB_KANI + TB_STUB + [
             'field-sequence model of MessageSerializer / Message{With,Without}ValueDeserializer (units/_shared/message_model.rs): '
             'put_*/try_get_* append/pop typed fields, finish()/new() relate a frame to (kind, fields, value); ASSUMED '
